@@ -120,9 +120,23 @@ Section HashRoundtrip.
   Lemma single_keeps_in_use f now b o : i_l b = InUse -> i_l (fst (w_single H pre f now b o)) = InUse.
   Proof. intros E. unfold w_single. rewrite E. destruct (step f now (i_s b) o); simpl; reflexivity. Qed.
 
-  Lemma atomic_keeps_lstate f now b os : i_l (fst (w_atomic H pre f now b os)) = i_l b.
+  Lemma atomic_unrepaired_keeps_lstate f now b os : i_l (fst (w_atomic_unrepaired H pre f now b os)) = i_l b.
   Proof.
-    unfold w_atomic. destruct (atomic_run f now (i_s b) false false os) as [[[s' rs] ab] er]. destruct (er || ab); reflexivity.
+    unfold w_atomic_unrepaired. destruct (atomic_run f now (i_s b) false false os) as [[[s' rs] ab] er]. destruct (er || ab); reflexivity.
+  Qed.
+
+  Lemma atomic_keeps_in_use f now b os : i_l b = InUse -> i_l (fst (w_atomic H pre f now b os)) = InUse.
+  Proof.
+    intros E. unfold w_atomic. destruct (atomic_run f now _ false false os) as [[[s' rs] ab] er]. destruct (er || ab); [exact E | reflexivity].
+  Qed.
+
+  (* since the repair: an atomic bulk either commits, and the ledger is in-use, or has no effect on tables, hashes, state *)
+  Lemma atomic_flips_or_no_effect f now b os b' out : w_atomic H pre f now b os = (b', out) ->
+    i_l b' = InUse \/ (i_l b' = i_l b /\ tables (i_s b') = tables (i_s b) /\ i_tab b' = i_tab b).
+  Proof.
+    unfold w_atomic. destruct (atomic_run f now _ false false os) as [[[s' rs] ab] er]. destruct (er || ab); intros E; inversion E; subst.
+    - right. repeat split; reflexivity.
+    - left. reflexivity.
   Qed.
 
   Lemma run_seq_in_use f now (os : list op) : forall b err, i_l b = InUse ->
@@ -181,5 +195,88 @@ Section HashRoundtrip.
     split.
     - intros l0 Hin. rewrite C. apply (proj2 (resync_above (i_s b))). exact Hin.
     - exists l. split; [exact A | exact B0].
+  Qed.
+  (* ---------------------------------------------------------------- ids of the first write: exactly max + 1 *)
+  Lemma step_tx_id f now s o s' lid t : step f now s o = SR s' (ROk lid (Some t) false) -> t = s_next_tx s.
+  Proof.
+    unfold step. destruct (find_ik (s_logs s) (o_ik o)) as [l0|].
+    - destruct (input_eq_dec (l_input l0) (o_in o)); intros E; inversion E.
+    - destruct (run_input f now s (o_in o)) as [s1 p|s1 e1|] eqn:R; [| |discriminate].
+      + assert (G : payload_tx_id p = Some t -> t = s_next_tx s).
+        { clear - R. destruct (o_in o) as [ps ts ref md amd force | id force at_eff rmeta | [a|id] md | [a|id] k]; simpl in R.
+          - destruct ps as [|q ps']; [discriminate|].
+            destruct (feasible force (s_vols s) (q :: ps')); simpl in R; [|discriminate].
+            destruct (commit_transaction f now s (q :: ps') md ts ref) as [s0 [t0|]] eqn:E; [|discriminate].
+            inversion R; subst. simpl. intros X; inversion X; subst. apply commit_some in E. tauto.
+          - destruct (find_tx (s_txs s) id) as [t0|]; [|discriminate]. destruct (t_rev t0); [discriminate|].
+            match type of R with context [match ?chk with RCOk => _ | RCInsufficient => _ | RCPanic => _ end] => destruct chk end; try discriminate.
+            match type of R with context [commit_transaction ?a ?b ?c0 ?d ?e ?g ?h] => destruct (commit_transaction a b c0 d e g h) as [s2 [r|]] eqn:E end; [|discriminate].
+            inversion R; subst. simpl. intros X; inversion X; subst. apply commit_some in E. destruct E as (_ & _ & E & _). exact E.
+          - inversion R; subst. discriminate.
+          - destruct (find_tx (s_txs s) id) as [t0|]; [|discriminate]. destruct (mcontains (t_meta t0) md); inversion R; subst; discriminate.
+          - destruct (find_account (s_accounts s) a); inversion R; subst; discriminate.
+          - destruct (find_tx (s_txs s) id) as [t0|]; [|discriminate]. destruct (mget (t_meta t0) k); [|discriminate]. inversion R; subst. discriminate. }
+        destruct (o_dry o); intros E; inversion E; subst; apply G; assumption.
+      + intros E; inversion E.
+  Qed.
+
+  Theorem single_after_import_next_ids f now b o b' lid tid :
+    i_l b = Initializing -> o_dry o = false -> w_single H pre f now b o = (b', Some (ROk lid tid false)) ->
+    (forall m, max_id l_id (s_logs (i_s b)) = Some m -> lid = m + 1) /\
+    (forall t m, tid = Some t -> max_id t_id (s_txs (i_s b)) = Some m -> t = m + 1).
+  Proof.
+    intros El Hd E. unfold w_single in E. rewrite El in E.
+    destruct (step f now (resync (i_s b)) o) as [s' r|] eqn:S; [|discriminate]. inversion E; subst; clear E.
+    split.
+    - intros m Em. destruct (step_commit_one_log f now (resync (i_s b)) o s' lid tid Hd S) as [l (_ & _ & _ & _ & _ & _ & C & _)].
+      rewrite C. unfold resync. cbn [s_next_log]. rewrite Em. reflexivity.
+    - intros t m -> Em. rewrite (step_tx_id f now _ o s' lid t S). unfold resync. cbn [s_next_tx]. rewrite Em. reflexivity.
+  Qed.
+
+  (* ---------------------------------------------------------------- C12: a non-atomic bulk with an accepted element *)
+  Lemma run_seq_commit_in_use f now (os : list op) : forall b err b' rs e',
+    Forall (fun o => o_dry o = false) os ->
+    run_seq (w_elem H pre f now) bres_ok BCancelled false b err os = (b', rs, e') ->
+    (exists lid tid hit, In (BRes (Some (ROk lid tid hit))) rs) -> i_l b' = InUse.
+  Proof.
+    induction os as [|o os IH]; intros b err b' rs e' Hd E [lid [tid [hit Hin]]].
+    - simpl in E. inversion E; subst. destruct Hin.
+    - inversion Hd as [|? ? Ho Hd']; subst. simpl in E. destruct err; simpl in E.
+      + destruct (run_seq (w_elem H pre f now) bres_ok BCancelled false b true os) as [[s1 rs1] e1] eqn:R. inversion E; subst.
+        destruct Hin as [D|Hin]; [discriminate D|]. eapply IH; [exact Hd' | exact R | do 3 eexists; exact Hin].
+      + unfold w_elem at 1 in E. destruct (w_single H pre f now b o) as [b1 r1] eqn:W.
+        destruct (run_seq (w_elem H pre f now) bres_ok BCancelled false b1 (negb (bres_ok (BRes r1))) os) as [[s1 rs1] e1] eqn:R. inversion E; subst.
+        destruct Hin as [D|Hin].
+        * inversion D; subst. assert (I1 : i_l b1 = InUse).
+          { eapply single_commit_in_use; [exact W|]. unfold committed. rewrite Ho. reflexivity. }
+          pose proof (run_seq_in_use f now os b1 (negb (bres_ok (BRes (Some (ROk lid tid hit))))) I1) as G. rewrite R in G. exact G.
+        * eapply IH; [exact Hd' | exact R | do 3 eexists; exact Hin].
+  Qed.
+
+  Theorem bulk_commit_then_import_rejected f now b os b' rs now' rs' :
+    Forall (fun o => o_dry o = false) os -> w_bulk H pre f now b os = (b', rs) ->
+    (exists lid tid hit, In (BRes (Some (ROk lid tid hit))) rs) ->
+    imp_import H pre f now' b' rs' = (b', Some IENotInitializing).
+  Proof.
+    intros Hd E Hin. apply import_in_use. unfold w_bulk, run_bulk in E.
+    destruct (run_seq (w_elem H pre f now) bres_ok BCancelled false b false os) as [[s1 rs1] e1] eqn:R. simpl in E. inversion E; subst.
+    eapply run_seq_commit_in_use; [exact Hd | exact R | exact Hin].
+  Qed.
+  (* ---------------------------------------------------------------- since the repair: an atomic bulk of one element on the
+     still-initializing copy IS the facade write of that element (same state, same hash column, in-use, same ids) *)
+  Theorem atomic_single_element f now b o s' lid tid :
+    i_l b = Initializing -> o_dry o = false -> step f now (resync (i_s b)) o = SR s' (ROk lid tid false) ->
+    w_atomic H pre f now b [o] = (fst (w_single H pre f now b o), AResults [ARes (BRes (Some (ROk lid tid false)))]).
+  Proof.
+    intros El Hd S. unfold w_atomic, w_single. rewrite El. cbn [atomic_run]. rewrite S.
+    destruct (step_commit_one_log f now (resync (i_s b)) o s' lid tid Hd S) as [l (_ & _ & _ & _ & _ & _ & C & _)].
+    assert (Htx : tx_collides (resync (i_s b)) (ROk lid tid false) = false).
+    { unfold tx_collides. destruct tid as [t|]; [|reflexivity]. rewrite (step_tx_id f now _ o s' lid t S).
+      unfold id_taken. destruct (existsb _ _) eqn:X; [|reflexivity]. apply existsb_exists in X. destruct X as [x [Hin Hx]].
+      apply Z.eqb_eq in Hx. pose proof (proj1 (resync_above (i_s b)) x Hin) as Hlt. exfalso. lia. }
+    assert (Hlg : log_collides (resync (i_s b)) (ROk lid tid false) = false).
+    { unfold log_collides. destruct (existsb _ _) eqn:X; [|reflexivity]. apply existsb_exists in X. destruct X as [x [Hin Hx]].
+      apply Z.eqb_eq in Hx. pose proof (proj2 (resync_above (i_s b)) x Hin) as Hlt. rewrite C in Hx. exfalso. lia. }
+    rewrite Htx, Hlg. cbn. unfold committed. rewrite Hd. reflexivity.
   Qed.
 End HashRoundtrip.
